@@ -124,6 +124,7 @@ func (h c15bHandle) Wait() error {
 }
 func (h c15bHandle) Kill() error {
 	h.pw.w.Yield("kill9")
+	h.pw.parentKills(h.p)
 	h.pw.die(h.p, "SIGKILL from the parent")
 	return nil
 }
@@ -163,6 +164,15 @@ func (pw *c15bWorld) die(p *c15bProc, why string) {
 		pw.r.Fault("worker-died-with-requests-in-flight")
 	}
 	pw.broadcast()
+}
+
+// parentKills notes a SIGKILL that relic itself sends to one of its workers:
+// fine for a process that never came up, not for one that is serving
+// requests it has accepted (their outcomes are lost to the callers).
+func (pw *c15bWorld) parentKills(p *c15bProc) {
+	if !p.dead && p.inflight > 0 {
+		pw.findings = append(pw.findings, fmt.Sprintf("the parent sent SIGKILL to process %d while %d accepted request(s) were still in flight (stopping=%v)", p.pid, p.inflight, p.stopping))
+	}
 }
 
 // gone ends the calling goroutine if it belongs to a dead process: a dead
@@ -284,6 +294,9 @@ func (e *c15bEnv) Shutdown(ctx context.Context) error {
 	if !p.stopping {
 		p.stopping, p.ready = true, false
 		w.Logf("process %d stops accepting (in flight: %d)", p.pid, p.inflight)
+		if p.inflight > 0 {
+			pw.r.Probe("worker-stops-with-requests-in-flight")
+		}
 		p.serveOnce.Do(func() { close(p.serveDone) })
 		pw.broadcast()
 	}
@@ -499,6 +512,7 @@ func (pw *c15bWorld) signalTask() {
 			}
 			switch syscall.Signal(ps[1]) {
 			case syscall.SIGKILL:
+				pw.parentKills(p)
 				pw.die(p, "SIGKILL")
 			case syscall.SIGTERM:
 				if p.sigCh == nil {
@@ -747,6 +761,10 @@ func c15bRun(r *core.Run) {
 			if k == "slow" {
 				return world.TokOutcome{Delay: 700 * time.Millisecond}
 			}
+			if k == "veryslow" {
+				// an operation that takes its time on the hardware (and succeeds)
+				return world.TokOutcome{Delay: 8 * time.Second}
+			}
 			return world.TokOutcome{Kind: k}
 		}
 		// the parent: relic's own constructor, spawn, monitor
@@ -776,7 +794,7 @@ func c15bRun(r *core.Run) {
 						live = append(live, p)
 					}
 				}
-				switch a := core.Pick(w.T, "chaos", "kill9", "kill9", "sigterm", "be-pkcs11-fatal", "be-pkcs11-fatal", "be-retryable", "be-hang", "be-slow", "be-error", "be-usage", "be-notimpl", "be-pkcs11-user"); {
+				switch a := core.Pick(w.T, "chaos", "kill9", "kill9", "sigterm", "be-pkcs11-fatal", "be-pkcs11-fatal", "be-retryable", "be-hang", "be-slow", "be-error", "be-usage", "be-notimpl", "be-pkcs11-user", "be-veryslow"); {
 				case a == "kill9" || a == "sigterm":
 					if len(live) == 0 {
 						continue
@@ -872,6 +890,10 @@ func c15bRun(r *core.Run) {
 	sort.Strings(pw.findings)
 	for _, f := range pw.findings {
 		key := "refusal"
+		if strings.Contains(f, "the parent sent SIGKILL") {
+			r.Failf("C15.inflight-dropped-by-parent-kill", "sigkill", "%s", f)
+			continue
+		}
 		if strings.Contains(f, "still in flight") {
 			r.Failf("C15.inflight-dropped-by-exiting-worker", "graceful-exit", "%s", f)
 			continue
